@@ -200,7 +200,7 @@ Print Assumptions C05_form_sound_examples.
 
 (* What IS proved about every form the search yields (for all components, sets, buffer sizes, fuel): one entry per skeleton
    bond, every entry joins two atoms adjacent in `rings`, has order 1 or 2, and no order-2 entry touches a double_bonded
-   atom (without any hypothesis on the arguments).  MISSING here (see C05_kekule_component_sound_partial below): the entries are pairwise different bonds; every plain ring atom gets
+   atom (without any hypothesis on the arguments).  MISSING here (proved for well-formed arguments in C05_kekule_component_sound below): the entries are pairwise different bonds; every plain ring atom gets
    exactly one and every pyrrole-type atom at most one order-2 entry. *)
 Theorem C05_kekule_component_bonds : forall rings db db_start pyr bs maxy fuel ys r c,
   kekule_component rings db db_start pyr bs maxy fuel = Ok (ys, r, c) ->
@@ -258,28 +258,29 @@ Theorem C05_thiele_model_preserves : forall g sssr rings2 fok o,
 Proof. exact thiele_model_preserves. Qed.
 Print Assumptions C05_thiele_model_preserves.
 
-(* ---- SECOND EXTENSION ROUND: soundness of the search.  For well-formed arguments (rings_wf2: simple symmetric connected
-   skeleton with two or three neighbours per atom, positive atom numbers, double_bonded and pyrroles disjoint subsets of it,
-   db_start in double_bonded) in which EVERY PYRROLE-TYPE ATOM HAS TWO SKELETON NEIGHBOURS, every form the search yields - for
-   any buffer size, cut and fuel - is form_sound: every skeleton bond exactly once, orders 1 / 2, double_bonded atoms no
-   double bond, plain ring atoms exactly one, pyrrole-type atoms at most one.  (Lineage invariant over the stack and its fork
-   snapshots, Proofs.KekuleSound.)  `_partial`: the hypothesis on pyrrole-type atoms is not needed by the code after ad376fe
-   (checked on every form of 20000 generated components with three-neighbour pyrrole atoms), but such an atom can be reached a
-   second time through a pending closure item, which this invariant does not cover. *)
-Theorem C05_kekule_component_sound_partial : forall rings db db_start pyr bs maxy fuel ys r c,
+(* ---- SECOND EXTENSION ROUND: kekule_component_sound, in full.  For well-formed arguments (rings_wf2: simple symmetric
+   connected skeleton with two or three neighbours per atom, positive atom numbers, double_bonded and pyrroles disjoint
+   subsets of it; db_start in double_bonded) every form the search model of the code after ad376fe yields - for any buffer
+   size, cut and fuel - is form_sound: every skeleton bond exactly once, orders 1 / 2, double_bonded atoms no double bond,
+   plain ring atoms exactly one, pyrrole-type atoms at most one.  Proof: a lineage invariant over the explicit stack and its
+   fork snapshots (Proofs.KekuleSound), including pyrrole-type atoms with three neighbours that are reached a second time
+   through a pending closure item (the situation of the former finding).  What remains outside: that the output of kekule()
+   is accepted by kekule_rel needs, in addition, the link between prepare_rings' classes and the relation's atom classes;
+   that link is not proved (the checker still runs on every output). *)
+Theorem C05_kekule_component_sound : forall rings db db_start pyr bs maxy fuel ys r c,
   rings_wf2 rings db pyr = true -> (db <> [] -> In db_start db) ->
   kekule_component rings db db_start pyr bs maxy fuel = Ok (ys, r, c) ->
   forallb (form_sound rings db pyr) ys = true.
-Proof. exact KekuleSound.kekule_component_sound_partial. Qed.
-Print Assumptions C05_kekule_component_sound_partial.
+Proof. exact KekuleSound.kekule_component_sound. Qed.
+Print Assumptions C05_kekule_component_sound.
 
-(* the hypotheses are satisfiable and the conclusion is not vacuous: benzene, the pyrrole skeleton (N-H in double_bonded),
-   pyridine-type N in pyrroles, naphthalene with a pyridine-type atom *)
 Theorem C05_kekule_component_sound_examples :
   rings_wf2 (ring_adj 6) [] [] = true /\ rings_wf2 (ring_adj 5) [1] [] = true /\ rings_wf2 (ring_adj 6) [] [1; 4] = true /\
-  rings_wf2 [(1, [2; 10]); (2, [1; 3]); (3, [2; 4]); (4, [3; 5]); (5, [4; 6; 10]); (6, [5; 7]); (7, [6; 8]); (8, [7; 9]); (9, [8; 10]); (10, [9; 1; 5])] [] [2] = true /\
-  match kekule_component [(1, [2; 10]); (2, [1; 3]); (3, [2; 4]); (4, [3; 5]); (5, [4; 6; 10]); (6, [5; 7]); (7, [6; 8]); (8, [7; 9]); (9, [8; 10]); (10, [9; 1; 5])] [] 0 [2] 0 10 1000 with
-  | Ok (ys, _, _) => (3 <=? List.length ys)%nat | Err _ => false end = true.
+  rings_wf2 naphthalene_adj [] [2] = true /\ rings_wf2 former_witness [6] [1; 3; 5; 7] = true /\
+  match kekule_component naphthalene_adj [] 0 [2] 0 10 1000 with
+  | Ok (ys, _, _) => (3 <=? List.length ys)%nat | Err _ => false end = true /\
+  match kekule_component former_witness [6] 6 [1; 3; 5; 7] 7 10 1000 with
+  | Ok (ys, _, _) => (1 <=? List.length ys)%nat && forallb (form_sound former_witness [6] [1; 3; 5; 7]) ys | Err _ => false end = true.
 Proof. exact kekule_component_sound_examples. Qed.
 Print Assumptions C05_kekule_component_sound_examples.
 
